@@ -617,26 +617,44 @@ def do_check(pid, tier, replay):
         shutil.rmtree(workdir, ignore_errors=True)
 
 
+def claimed_props():
+    try:
+        ids = open(os.path.join(ROOT, "tools", "claimed.txt")).read().split()
+    except FileNotFoundError:
+        ids = []
+    return [load_prop(i) for i in ids]
+
+
 def do_setup():
+    """Build what the claimed checks need: their theorem and judge libraries and their drivers.
+    Files of checks that are still under construction are built too (make -k) but cannot fail the setup."""
     t0 = time.time()
     missing = gen_facts()
     for m in missing:
         log(m)
-    rc, out = coq_make(None, timeout=3600)
+    props = claimed_props()
+    targets = []
+    for p in props:
+        for t in (p.COQ_PROPS + "o", p.JUDGE.replace(".", "/") + ".vo"):
+            if t not in targets:
+                targets.append(t)
+    rc, out = coq_make(targets or None, timeout=3600)
     if rc != 0:
         print(out[-6000:])
         print("setup: coq build failed")
         return 1
+    coq_make(None, timeout=3600)  # best effort for the rest
     try:
         shutil.copyfile(os.path.join(REPO, "go.sum"), os.path.join(HARNESS, "go.sum"))
     except OSError:
         pass
     os.makedirs(os.path.join(HARNESS, "bin"), exist_ok=True)
-    rc, out = sh(["go", "build", "-tags", "verif", "-o", "bin/", "./cmd/..."], cwd=HARNESS, env=GOENV, timeout=1800)
-    if rc != 0:
-        print(out[-6000:])
-        print("setup: harness build failed")
-        return 1
+    for d in sorted(set(p.DRIVER for p in props)):
+        rc, out = build_driver(d)
+        if rc != 0:
+            print(out[-6000:])
+            print("setup: harness driver %s failed to build" % d)
+            return 1
     log("setup done in %.1fs" % (time.time() - t0))
     return 0
 
